@@ -635,6 +635,14 @@ def r9(ctx):
     ctx.floor("C16.R9", 8)
 
 
+def r10(ctx):
+    """"removing a document is refused while it is open": a refused removal changes nothing - in particular it does not end the
+    event streams of the holders that keep the document open (= C12.R9)"""
+    from . import apifw
+    apifw.check_refused_drop_keeps_subscribers(ctx, "C16.R10")
+    ctx.floor("C16.R10", 2)
+
+
 def run(ctx):
     ctx.run_rule("C16.R1", r1)
     ctx.run_rule("C16.R2", r2)
@@ -645,3 +653,4 @@ def run(ctx):
     ctx.run_rule("C16.R7", r7)
     ctx.run_rule("C16.R8", r8)
     ctx.run_rule("C16.R9", r9)
+    ctx.run_rule("C16.R10", r10)
